@@ -125,8 +125,9 @@ class C13(Property):
         "enumeration (gather_by_query patched to return the list) in addition to the unpatched call",
         "hmmer: hits equal in (identifier, start, end, score) are generated equal in every other field (the code's "
         "own docstring treats them as the same hit)",
-        "filter_results: when two hits of a gene tie in bitscore the survivor depends on the enumeration of a set of "
-        "objects (memory addresses); on such inputs the correspondence accepts any output satisfying the spec",
+        "filter_results: HSPs are distinct objects (identity equality), modelled by a unique uid per hit; the "
+        "executable closure/position functions linkedB/prefersB run by the driver are unverified twins of the "
+        "Props Linked/Prefers the theorems use",
         "Python sorted() is a stable sort; dict/defaultdict keep insertion order",
     ]
 
@@ -494,6 +495,20 @@ class C13(Property):
         if outs is None:
             return {"out": None}
         obs = {"out": outs[0], "results_same": len(outs) == len(genes)}
+        # the survivors of a gene do not depend on the order of its hit list, unless two of its hits tie
+        first = case["hits"]
+        if len(set(f[4] for f in first)) == len(first) and len(first) > 1:
+            prng = random.Random(len(first) * 7919 + first[0][4])
+            orders = [first[::-1]]
+            for _ in range(4):
+                o = list(first)
+                prng.shuffle(o)
+                orders.append(o)
+            for o in orders:
+                got = run([o])
+                if got is None or sorted(got[0]) != sorted(outs[0]):
+                    obs["perm_bad"] = {"order": o, "out": got}
+                    break
         if len(genes) > 1:
             obs["genes"] = outs[:len(genes)]
             obs["alone"] = [run([g]) for g in genes]
@@ -545,14 +560,12 @@ class C13(Property):
         elif not spec["overlap"]:
             spec_ok = False
             detail = f"two returned hits overlap by more than 20% of the longer profile: {obs['out']}"
-            if corr and not mspec["overlap"] and not drv["scope"]:
-                known = KF_OVERLAP
         if not corr and not detail:
             detail = f"model {drv['model']} vs implementation {obs['out']}"
         tags = ("refine", "nb" if case["nb"] else "dl", "n%d" % min(len(case["hits"]), 8),
                 "uniform-len" if drv["scope"] else "mixed-len", "clear" if spec["clear"] else "not-clear",
                 "out%d" % min(len(obs["out"]), 4))
-        return Judgement(corr, spec_ok, in_scope=bool(drv["scope"]), known=known,
+        return Judgement(corr, spec_ok, in_scope=True, known=known,
                          nontrivial=bool(drv["nontrivial"]), tags=tags, detail=detail)
 
     def judge_remov(self, case: Dict[str, Any], obs: Dict[str, Any], drv: Dict[str, Any]) -> Judgement:
@@ -568,17 +581,13 @@ class C13(Property):
                 spec_ok, detail = False, f"output not a position-ordered selection of the input: {obs['out']}"
             elif not spec["overlap"]:
                 spec_ok, detail = False, f"kept hits overlap by more than the margin: {obs['out']}"
-                if corr and not mspec["overlap"] and not drv["scope"]:
-                    known = KF_OVERLAP
             elif not spec["justified"]:
                 spec_ok, detail = False, f"a hit was dropped although no kept hit collides with it: {obs['out']}"
-                if corr and not mspec["justified"]:
-                    known = KF_ORPHAN
         if not corr and not detail:
             detail = f"model {drv['model']} vs implementation {obs['out']}"
         tags = ("remov", "sorted-input" if drv["input_sorted"] else "unsorted-input",
                 "uniform-len" if drv["scope"] else "mixed-len")
-        return Judgement(corr, spec_ok, in_scope=bool(drv["scope"]), known=known,
+        return Judgement(corr, spec_ok, in_scope=True, known=known,
                          nontrivial=bool(drv["nontrivial"]), tags=tags, detail=detail)
 
     def judge_incomplete(self, case: Dict[str, Any], obs: Dict[str, Any], drv: Dict[str, Any]) -> Judgement:
@@ -637,12 +646,11 @@ class C13(Property):
     def judge_equiv(self, case: Dict[str, Any], obs: Dict[str, Any], drv: Dict[str, Any]) -> Judgement:
         tie = bool(drv["tie"])
         if obs["out"] is None:
-            # the assertion `results_by_id[cds]` fired: only possible when scores tie
-            corr = drv["model"] is None or tie
-            return Judgement(corr, tie, tags=("equiv", "assertion"),
-                             detail="" if corr and tie else f"assertion without a score tie; model {drv['model']}")
+            # the assertion `results_by_id[cds]` fired: impossible (theorem equivalence_never_empties_a_gene)
+            return Judgement(drv["model"] is None, False, tags=("equiv", "assertion"),
+                             detail=f"the gene lost all its hits (assertion); model {drv['model']}")
         spec_ok = bool(drv["spec"]["ok"]) and obs["results_same"]
-        corr = obs["out"] == drv["model"] or (tie and spec_ok)
+        corr = obs["out"] == drv["model"]
         detail = ""
         if "genes" in obs:
             # each gene of a record is filtered on its own hits only (theorem equivalence_filter_is_per_gene)
@@ -650,8 +658,10 @@ class C13(Property):
             if obs["genes"] != alone:
                 spec_ok = False
                 detail = f"a gene's result depends on the other genes: together {obs['genes']}, each alone {alone}"
-            if not drv["tie_any"]:
-                corr = corr and obs["genes"] == drv["model_genes"]
+            corr = corr and obs["genes"] == drv["model_genes"]
+        if obs.get("perm_bad") is not None:
+            spec_ok = False
+            detail = f"order dependence: {obs['out']} vs {obs['perm_bad']}"
         if not spec_ok and not detail:
             detail = f"spec on implementation output {obs['out']}: {drv['spec']} results_same={obs['results_same']}"
         elif not corr and not detail:
